@@ -546,6 +546,44 @@ func casterC08(c *Ctx) {
 					pickS(okp || okn, "state.Add reached iff 0 < delta <= MaxInt32, resp. -MaxInt32 <= delta < 0", "an out-of-range delta can reach the atomic add (it must panic instead): "+got.String()), a)
 			}
 		}
+		// RNG: the (sign-normalised) delta packed into the atomic add is within [1, MaxInt32] - decided by interval
+		// analysis with wrap-around, so that a bound checked after negation (which overflows for MinInt) is seen
+		if len(adds) == 2 {
+			env := P.NewItvEnv(q.fn, nil)
+			for _, a := range adds {
+				var packed []ssa.Value
+				var walk func(v ssa.Value, d int)
+				walk = func(v ssa.Value, d int) {
+					if d > 8 {
+						return
+					}
+					switch x := v.(type) {
+					case *ssa.Convert:
+						if b, ok := x.X.Type().Underlying().(*types.Basic); ok && b.Kind() == types.Int {
+							packed = append(packed, x.X)
+							return
+						}
+						walk(x.X, d+1)
+					case *ssa.BinOp:
+						walk(x.X, d+1)
+						walk(x.Y, d+1)
+					case *ssa.UnOp:
+						walk(x.X, d+1)
+					}
+				}
+				walk(callArg(a, 1), 0)
+				ok := len(packed) > 0
+				worst := ""
+				for _, pv := range packed {
+					r := env.At(pv, a.Block())
+					if !r.Within(1, max) {
+						ok = false
+						worst = r.String()
+					}
+				}
+				q.add("RNG", "the delta packed into the state word is within [1, MaxInt32]", ok, pickS(ok, "interval analysis: every int packed into the atomic add is in [1, 2147483647] at this site", "the value packed into the atomic add can be "+worst+" (e.g. -delta overflows for the most negative int): an out-of-range Add would go unnoticed"), a)
+			}
+		}
 		// negative branch: receives only when a send is in flight, exactly delta times
 		recvs := an.AllInstrs(q.fn, func(in ssa.Instruction) bool {
 			u, ok := in.(*ssa.UnOp)
